@@ -382,8 +382,118 @@ def rule4_affine(ctx, v):
                        (FREE_LIST_NUM, FREE_LIST_NUM), loc=c.loc,
                        detail='' if ok else 'index = %s ranges over [0,32] (32 - clz of a 32-bit truncation); sizes above '
                        '2^30 index past the table' % expr_str(fn, idx))
-    ctx.floor('C12.4', 12)
+    # every block that enters size class idx has the capacity of the class (1 << idx): flfree files a block under the class of
+    # the size it is told, and the next user of that class may be given any size up to the class size
+    if ia:
+        idx = ia[0][1]
+        maps = call_sites(a, 'myth_mmap')
+        ctx.ob('C12.4', 'flmalloc: fresh blocks come from myth_mmap', len(maps) >= 1, 'allocation sites found', loc=a.loc)
+
+        def class_size(ref):
+            i = a.get(a.strip(ref)) if isinstance(ref, str) else None
+            return i is not None and i.op == 'shl' and const_int(i.ops[0]) == 1 and lib.same_expr(a, i.ops[1], idx)
+        for mc in maps:
+            L = mc.args[1]
+            if class_size(L):
+                ctx.ob('C12.4', 'flmalloc: block mapped with the class size', True, 'mmap length = 1 << idx', loc=mc.loc)
+                continue
+            P = const_int(L)
+            ok = False
+            detail = expr_str(a, L)
+            if P is not None:
+                # one page carved into class-size chunks: only where the class size is below the page size
+                g = [ic for ic in a.order if ic.op == 'icmp' and ic.pred in ('ult', 'slt') and class_size(ic.ops[0]) and const_int(ic.ops[1]) == P]
+                okg = any(a.edge_dominates(br.block.id, br.d['t'], mc) for ic in g for br in a.users(ic.id) if br.op == 'br' and 'cond' in br.d)
+                pushes = [c for c in call_sites(a, 'myth_freelist_push') if a.dominates_f(mc, c)]
+                okp = bool(pushes)
+                for c in pushes:
+                    ph = a.get(a.strip(c.args[1])) if isinstance(c.args[1], str) else None
+                    okc = ph is not None and ph.op == 'phi' and len(ph.d['incoming']) == 2
+                    if okc:
+                        for val, b_ in ph.d['incoming']:
+                            gi = a.get(a.strip(val)) if isinstance(val, str) else None
+                            okc = okc and gi is not None and gi.op == 'getelementptr' and gi.d.get('srcty') == 'i8' and \
+                                len(gi.d['path']) == 1 and class_size(gi.d['path'][0].get('p')) and \
+                                (a.strip(gi.d['base']) in (mc.id, ph.id))
+                        lim = [ic for ic in a.order if ic.op == 'icmp' and ic.pred == 'ult' and a.strip(ic.ops[0]) == ph.id and
+                               lib.affine_diff(a, ic.ops[1], mc.id) == {'': P}]
+                        okc = okc and bool(lim) and any(a.edge_dominates(br.block.id, br.d['t'], c) for ic in lim for br in a.users(ic.id)
+                                                        if br.op == 'br' and 'cond' in br.d)
+                        okc = okc and lib.same_expr(a, [s_ for s_ in a.ap(c.args[0]).steps if s_[0] in ('p', 'i')][-1][1], idx)
+                    okp = okp and okc
+                ok = okg and okp
+                detail = 'page of %d bytes; guard class size < page: %s; chunks of the class size pushed on the same class: %s' % (P, okg, okp)
+            ctx.ob('C12.4', 'flmalloc: block mapped with the class size', ok,
+                   'a block shorter than its class is later handed to a request of up to the class size and overlaps its neighbour',
+                   loc=mc.loc, detail=detail)
+    ctx.floor('C12.4', 14)
     ctx.floor('C12.5', 2)
+
+
+def roundup_term(f, key, n, q=16):
+    """the affine term `key` is n rounded up to a multiple of q: ((n + q-1) >> k) << k or (n + q-1) & ~(q-1)"""
+    i = f.insts.get(key)
+    if i is None:
+        return False
+    k = q.bit_length() - 1
+    inner = None
+    if i.op == 'shl' and const_int(i.ops[1]) == k:
+        j = f.get(f.strip(i.ops[0])) if isinstance(i.ops[0], str) else None
+        if j is not None and j.op in ('lshr', 'ashr') and const_int(j.ops[1]) == k:
+            inner = j.ops[0]
+    elif i.op == 'and' and const_int(i.ops[1]) in (-q, (1 << 64) - q):
+        inner = i.ops[0]
+    if inner is None:
+        return False
+    d = lib.affine_diff(f, inner, n)
+    return d == {'': q - 1}
+
+
+def shifted_term(f, key, n, q=16):
+    """`key` is (n + q-1) >> log2(q): q times it is n rounded up to a multiple of q (affine() folds the << into the coefficient)"""
+    i = f.insts.get(key)
+    return i is not None and i.op in ('lshr', 'ashr') and const_int(i.ops[1]) == q.bit_length() - 1 and \
+        lib.affine_diff(f, i.ops[0], n) == {'': q - 1}
+
+
+def rule4_custom_data(ctx, v3):
+    """the per-thread hint (attr.custom_data) lives strictly below the two header words at th->stack, the initial stack
+    pointer strictly below the hint"""
+    f = ctx.need_fn(v3, 'myth_create_ex_body')
+    stks = call_sites(f, 'get_new_myth_thread_struct_stack')
+    ctx.ob('C12.4', 'create: one stack allocation', len(stks) == 1, 'stk = get_new_myth_thread_struct_stack(env, size)', loc=f.loc)
+    if len(stks) != 1:
+        return
+    stk = stks[0].id
+    cps = [c for c in f.calls() if (c.callee or '').startswith('llvm.memcpy') and
+           any(k in f.insts and f.insts[k].op == 'load' and f.field(f.insts[k]) == 'myth_thread_attr.custom_data' for k in f.sources(c.args[1]))]
+    ctx.ob('C12.4', 'create: hint copied once', len(cps) == 1, 'memcpy(dest, attr->custom_data, attr->custom_data_size)', loc=f.loc)
+    for c in cps:
+        n = c.args[2]
+        d = lib.affine_diff(f, c.args[0], stk)
+        terms = [k for k in d if k != '']
+        okr = len(terms) == 1 and ((d[terms[0]] == -1 and (roundup_term(f, terms[0], n) or not lib.affine_diff(f, terms[0], n))) or
+                                   (d[terms[0]] == -16 and shifted_term(f, terms[0], n, 16)))
+        ctx.ob('C12.4', 'create: hint region ends at or below th->stack', okr and d.get('', 0) <= 0,
+               'dest = stack - roundup(size) - c with c >= 0: the words at stack[0..1] (free-list link and block size, read when '
+               'the stack is released) are not part of the hint region', loc=c.loc, detail=expr_str(f, c.args[0]))
+        ptrs = [st for st in f.stores_to(TH + 'custom_data_ptr')]
+        ctx.ob('C12.4', 'create: custom_data_ptr is the copied region', len(ptrs) == 1 and not lib.affine_diff(f, ptrs[0].ops[0], c.args[0]),
+               'the pointer handed to the thread is where the hint was copied', loc=c.loc)
+        # initial stack pointer on this path
+        mks = [x for x in f.calls() if (x.callee or '').startswith('myth_make_context')]
+        ctx.ob('C12.4', 'create: context construction sites', len(mks) >= 2, 'child-first and parent-first initial contexts', loc=f.loc)
+        for mk in mks:
+            sp = [a_ for a_ in mk.args if isinstance(a_, str) and stk in f.sources(a_, through_arith=True)]
+            oks = False
+            for a_ in sp[:1]:
+                pi = f.get(f.strip(a_))
+                vals = [v_ for v_, b_ in pi.d['incoming']] if pi is not None and pi.op == 'phi' else [a_]
+                below = [v_ for v_ in vals if lib.affine_diff(f, v_, stk)]
+                oks = bool(below) and all(set(lib.affine_diff(f, v_, c.args[0])) <= {''} and lib.affine_diff(f, v_, c.args[0]).get('', 0) <= 0
+                                          for v_ in below)
+            ctx.ob('C12.4', 'create: initial stack pointer at or below the hint (%s)' % mk.callee, oks,
+                   'the new thread\'s frames grow downwards from below the hint', loc=mk.loc)
 
 
 def index_bounded(fn, idx, at, bound):
@@ -426,6 +536,10 @@ def run(ctx):
                       stops=('myth_queue_push', 'myth_queue_pop', 'get_new_myth_thread_struct_desc',
                              'get_new_myth_thread_struct_stack', 'myth_init_ex_body') + lib.SPIN_STOPS, flavour=fl)
         c01.rule3_publish(ctx, v3, rule='C12.6', only=[TH + 'detached', TH + 'status', TH + 'join_thread', TH + 'stack'])
+        v4 = ctx.view(NATIVE, roots=['myth_create_ex_body'],
+                      stops=('myth_queue_push', 'myth_queue_pop', 'get_new_myth_thread_struct_desc', 'get_new_myth_thread_struct_stack',
+                             'myth_init_ex_body', 'myth_make_context_empty', 'myth_make_context_voidcall') + lib.SPIN_STOPS, flavour=fl)
+        rule4_custom_data(ctx, v4)
 
 
 SCHED = 'src/myth_sched_func.h'
@@ -439,6 +553,14 @@ MUTANTS = [
     {'name': 'yield re-queues on the cached env after a nested switch', 'expect': 'C12.3',
      'edits': [(SCHED, "#if MYTH_YIELD_DEBUG\n  myth_dprintf(\"myth_yield:thread %p continues execution\\n\",th);\n#endif\n  return 0;",
                 "  if (env->this_thread != th) env->this_thread = th;\n  return 0;")]},
+    {'name': 'large blocks mapped with the requested size, not the class size (seed2 C12/m1)', 'expect': 'C12.4',
+     'edits': [(MISC, "      ptr = myth_mmap(NULL, realsize, PROT_READ|PROT_WRITE,", "      ptr = myth_mmap(NULL, size, PROT_READ|PROT_WRITE,")]},
+    {'name': 'small chunks carved with the requested size', 'expect': 'C12.4',
+     'edits': [(MISC, "      p += realsize;\n      while (p < p2){", "      p += size;\n      while (p < p2){")]},
+    {'name': 'thread hint copied over the stack header words (seed2 C12/m3)', 'expect': 'C12.4',
+     'edits': [(SCHED, "    i_stk -= 16 + (((custom_data_size + 15) >> 4) << 4);", "    i_stk -= (custom_data_size + 15) & ~(size_t)15;")]},
+    {'name': 'child-first context starts at the stack top, inside the hint (seed2 C03/m2)', 'expect': 'C12.4',
+     'edits': [(SCHED, "    myth_make_context_empty(&new_thread->context, stk, stk_size);", "    myth_make_context_empty(&new_thread->context, new_thread->stack, stk_size);")]},
     {'name': 'custom stack release off by 8', 'expect': 'C12.4',
      'edits': [(SCHED, "void *stack_start=(((uint8_t*)ptr)-(*blk_size)+(sizeof(void*)*2));", "void *stack_start=(((uint8_t*)ptr)-(*blk_size)+(sizeof(void*)));")]},
     {'name': 'size word holds the unrounded request (seed C12/m1)', 'expect': 'C12.4',
